@@ -843,6 +843,10 @@ func siteOf(class string) string {
 		return "frac/active_token_list.go:Append"
 	case "search-error":
 		return "frac/active_index.go:Search"
+	case "append-error-under-rotation":
+		return "fracmanager/fracmanager.go:Append"
+	case "sealed-foreign-id", "sealed-missing-id":
+		return "frac/sealed_index.go:Search"
 	case "fetch-bare-id":
 		return "fracmanager/fetcher.go:FetchDocs"
 	case "search-foreign-id":
